@@ -163,6 +163,249 @@ func privilegeConsts(f *ast.File) (names []string, ok bool, why string) {
 	return nil, false, "no `Privilege = 1 << iota` const block"
 }
 
+// emitRoutes extracts every Route literal NewHandler registers (the per-method loop is expanded) with its
+// BypassAuth flag and whether the handler receives the user, and checks the shape of addRawRoute.
+func emitRoutes(hF *ast.File, consts map[string]string, w func(string, ...interface{})) {
+	w("")
+	w("/-- One route registered by NewHandler. `forward` = the handler has the AuthorizationHandler signature. -/")
+	w("structure GenRoute where")
+	w("  method : List Char")
+	w("  pattern : List Char")
+	w("  handler : List Char")
+	w("  bypassAuth : Bool")
+	w("  forward : Bool")
+	w("deriving Repr, DecidableEq")
+	nh := funcDecl(hF, "NewHandler", "")
+	if nh == nil {
+		problem("NewHandler not found")
+		w("def allowedMethods : List (List Char) := []")
+		w("def routes : List GenRoute := []")
+		return
+	}
+	// number of parameters of the functions of this file (3 => receives the user)
+	arity := map[string]int{}
+	for _, d := range hF.Decls {
+		if fd, ok := d.(*ast.FuncDecl); ok {
+			n := 0
+			for _, f := range fd.Type.Params.List {
+				if len(f.Names) == 0 {
+					n++
+				} else {
+					n += len(f.Names)
+				}
+			}
+			arity[fd.Name.Name] = n
+		}
+	}
+	pattern := func(e ast.Expr) (string, bool) {
+		switch x := e.(type) {
+		case *ast.BasicLit:
+			if x.Kind == token.STRING {
+				v, err := strconv.Unquote(x.Value)
+				return v, err == nil
+			}
+		case *ast.BinaryExpr:
+			if x.Op == token.ADD {
+				id, ok1 := x.X.(*ast.Ident)
+				bl, ok2 := x.Y.(*ast.BasicLit)
+				if ok1 && ok2 && bl.Kind == token.STRING {
+					base, has := consts[id.Name]
+					v, err := strconv.Unquote(bl.Value)
+					return base + v, has && err == nil
+				}
+			}
+		}
+		return "", false
+	}
+	type route struct {
+		method, pattern, handler   string
+		perMethod, bypass, forward bool
+	}
+	parseRoute := func(cl *ast.CompositeLit) (route, bool) {
+		var r route
+		seen := map[string]bool{}
+		for _, el := range cl.Elts {
+			kv, ok := el.(*ast.KeyValueExpr)
+			if !ok {
+				return r, false
+			}
+			key := src(kv.Key)
+			seen[key] = true
+			switch key {
+			case "Method":
+				if bl, ok := kv.Value.(*ast.BasicLit); ok && bl.Kind == token.STRING {
+					r.method, _ = strconv.Unquote(bl.Value)
+				} else if src(kv.Value) == "method" {
+					r.perMethod = true
+				} else {
+					return r, false
+				}
+			case "Pattern":
+				p, ok := pattern(kv.Value)
+				if !ok {
+					return r, false
+				}
+				r.pattern = p
+			case "HandlerFunc":
+				r.handler = src(kv.Value)
+				name := r.handler
+				if i := strings.LastIndex(name, "."); i >= 0 {
+					name = name[i+1:]
+				}
+				switch {
+				case strings.HasPrefix(r.handler, "pprof."):
+					r.forward = false // net/http/pprof handlers are func(ResponseWriter, *Request)
+				case arity[name] == 2:
+					r.forward = false
+				case arity[name] == 3:
+					r.forward = true
+				default:
+					return r, false
+				}
+			case "BypassAuth":
+				if src(kv.Value) != "true" {
+					return r, false
+				}
+				r.bypass = true
+			case "NoGzip", "NoJSON":
+			default:
+				return r, false
+			}
+		}
+		return r, seen["Method"] && seen["Pattern"] && seen["HandlerFunc"]
+	}
+	var allowed []string
+	var loopRoutes, fixed []route
+	for _, st := range nh.Body.List {
+		switch x := st.(type) {
+		case *ast.AssignStmt:
+			if len(x.Lhs) == 1 && src(x.Lhs[0]) == "allowedMethods" {
+				if cl, ok := x.Rhs[0].(*ast.CompositeLit); ok && src(cl.Type) == "[]string" {
+					for _, e := range cl.Elts {
+						if bl, ok := e.(*ast.BasicLit); ok && bl.Kind == token.STRING {
+							v, _ := strconv.Unquote(bl.Value)
+							allowed = append(allowed, v)
+						} else {
+							problem("allowedMethods: element not a string literal: %s", src(e))
+						}
+					}
+				} else {
+					problem("allowedMethods is not a []string literal")
+				}
+			}
+		case *ast.RangeStmt:
+			if src(x.X) != "allowedMethods" || src(x.Value) != "method" {
+				problem("NewHandler: unrecognised range statement over %s", src(x.X))
+				continue
+			}
+			vars := map[string]route{}
+			for _, bs := range x.Body.List {
+				switch y := bs.(type) {
+				case *ast.AssignStmt:
+					if cl, ok := y.Rhs[0].(*ast.CompositeLit); ok && src(cl.Type) == "Route" {
+						r, ok := parseRoute(cl)
+						if !ok {
+							problem("NewHandler loop: unrecognised Route literal: %s", src(cl))
+						}
+						vars[src(y.Lhs[0])] = r
+					} else if src(y) != "h.methodMux[method] = NewServeMux()" {
+						problem("NewHandler loop: unrecognised statement: %s", src(y))
+					}
+				case *ast.ExprStmt:
+					call, ok := y.X.(*ast.CallExpr)
+					if ok && src(call.Fun) == "h.addRawRoute" && len(call.Args) == 1 {
+						if r, has := vars[src(call.Args[0])]; has {
+							loopRoutes = append(loopRoutes, r)
+							continue
+						}
+					}
+					problem("NewHandler loop: unrecognised statement: %s", src(y))
+				default:
+					problem("NewHandler loop: unrecognised statement: %s", src(bs))
+				}
+			}
+		case *ast.ExprStmt:
+			call, ok := x.X.(*ast.CallExpr)
+			if ok && src(call.Fun) == "h.addRawRoutes" && len(call.Args) == 1 {
+				if cl, ok := call.Args[0].(*ast.CompositeLit); ok && src(cl.Type) == "[]Route" {
+					for _, e := range cl.Elts {
+						rl, ok := e.(*ast.CompositeLit)
+						if !ok {
+							problem("NewHandler: route element is not a literal: %s", src(e))
+							continue
+						}
+						r, ok := parseRoute(rl)
+						if !ok || r.perMethod {
+							problem("NewHandler: unrecognised Route literal: %s", src(rl))
+							continue
+						}
+						fixed = append(fixed, r)
+					}
+					continue
+				}
+			}
+			problem("NewHandler: unrecognised statement: %s", src(x))
+		case *ast.ReturnStmt:
+		default:
+			problem("NewHandler: unrecognised statement: %s", src(st))
+		}
+	}
+	var ms []string
+	for _, m := range allowed {
+		ms = append(ms, leanChars(m))
+	}
+	w("def allowedMethods : List (List Char) := [%s]", strings.Join(ms, ", "))
+	var rs []string
+	one := func(m string, r route) {
+		rs = append(rs, fmt.Sprintf("⟨%s, %s, %s, %v, %v⟩", leanChars(m), leanChars(r.pattern), leanChars(r.handler), r.bypass, r.forward))
+	}
+	for _, m := range allowed {
+		for _, r := range loopRoutes {
+			one(m, r)
+		}
+	}
+	for _, r := range fixed {
+		one(r.method, r)
+	}
+	w("def routes : List GenRoute := [%s]", strings.Join(rs, ",\n  "))
+
+	// no caller outside this file may mark a route BypassAuth (the theorems assume added routes are not exempt)
+	repoRoot := filepath.Dir(filepath.Dir(filepath.Dir(fset.Position(hF.Pos()).Filename)))
+	filepath.Walk(repoRoot, func(path string, info os.FileInfo, err error) error {
+		if err != nil {
+			return nil
+		}
+		if info.IsDir() {
+			if n := info.Name(); n == "vendor" || n == ".git" || n == "node_modules" {
+				return filepath.SkipDir
+			}
+			return nil
+		}
+		if !strings.HasSuffix(path, ".go") || strings.HasSuffix(path, filepath.Join("services", "httpd", "handler.go")) {
+			return nil
+		}
+		if b, err := os.ReadFile(path); err == nil && bytes.Contains(b, []byte("BypassAuth")) {
+			problem("BypassAuth is used outside services/httpd/handler.go: %s", strings.TrimPrefix(path, repoRoot))
+		}
+		return nil
+	})
+
+	// addRawRoute: handlers that receive the user are wrapped with h.requireAuthentication; plain handlers
+	// with requireAuth, which is switched off exactly when r.BypassAuth && h.exposePprof.
+	ok := false
+	if fd := funcDecl(hF, "addRawRoute", "*Handler"); fd != nil && len(fd.Body.List) >= 3 {
+		a := src(fd.Body.List[1])
+		b := src(fd.Body.List[2])
+		ok = a == "if hf, ok := r.HandlerFunc.(func(http.ResponseWriter, *http.Request, auth.User)); ok { handler = authenticate(authorizeForward(hf), h, h.requireAuthentication) }" &&
+			b == "if hf, ok := r.HandlerFunc.(func(http.ResponseWriter, *http.Request)); ok { requireAuth := h.requireAuthentication if r.BypassAuth && h.exposePprof { requireAuth = false } handler = authenticate(authorize(hf), h, requireAuth) }"
+		if !ok {
+			problem("addRawRoute: authentication wrapping not recognised: %s ;; %s", a, b)
+		}
+	} else {
+		problem("addRawRoute not found")
+	}
+}
+
 func main() {
 	repo := os.Getenv("VERIF_REPO")
 	if repo == "" {
@@ -189,7 +432,10 @@ func main() {
 	w("/-- Shape of a boolean expression of `AuthorizeAction`. -/")
 	w("inductive Shape where")
 	w("  | noPrivilegesOrAdmin      -- `action.Privilege == NoPrivileges || u.admin`")
-	w("  | andNonZeroOrEqAll        -- `p&action.Privilege != 0 || p == AllPrivileges`")
+	w("  | andNonZeroOrEqAll        -- `p&action.Privilege != 0 || p == AllPrivileges` (before fix d662ebb)")
+	w("  | andNonZeroOrAllBit       -- `p&action.Privilege != 0 || p&AllPrivileges != 0`")
+	w("  | storeAssign              -- NewUser: `ps[clean] = mask` (before fix 06df506)")
+	w("  | storeOr                  -- NewUser: `ps[clean] |= mask`")
 	w("  | unknown (src : String)")
 	w("deriving Repr, DecidableEq")
 	w("")
@@ -303,7 +549,40 @@ func main() {
 		return ".unknown " + leanStr(s)
 	}
 	w("def earlyAllowShape : Shape := %s", shape(early, "action.Privilege == NoPrivileges || u.admin", "noPrivilegesOrAdmin"))
-	w("def authorizedShape : Shape := %s", shape(authorized, "p&action.Privilege != 0 || p == AllPrivileges", "andNonZeroOrEqAll"))
+	switch authorized {
+	case "p&action.Privilege != 0 || p == AllPrivileges":
+		w("def authorizedShape : Shape := .andNonZeroOrEqAll")
+	case "p&action.Privilege != 0 || p&AllPrivileges != 0":
+		w("def authorizedShape : Shape := .andNonZeroOrAllBit")
+	default:
+		w("def authorizedShape : Shape := .unknown %s", leanStr(authorized))
+	}
+	// NewUser: how a cleaned resource's mask is stored, and that the mask is the OR of the listed privileges
+	store, maskOr := "", false
+	if fd := funcDecl(authF, "NewUser", ""); fd != nil {
+		ast.Inspect(fd, func(n ast.Node) bool {
+			if as, ok := n.(*ast.AssignStmt); ok && len(as.Lhs) == 1 && len(as.Rhs) == 1 {
+				if src(as.Lhs[0]) == "ps[clean]" {
+					store = src(as)
+				}
+				if src(as) == "mask |= p" {
+					maskOr = true
+				}
+			}
+			return true
+		})
+	}
+	switch store {
+	case "ps[clean] = mask":
+		w("def newUserStoreShape : Shape := .storeAssign")
+	case "ps[clean] |= mask":
+		w("def newUserStoreShape : Shape := .storeOr")
+	default:
+		w("def newUserStoreShape : Shape := .unknown %s", leanStr(store))
+	}
+	if !maskOr {
+		problem("NewUser: `mask |= p` not found")
+	}
 	w("")
 
 	// ---- requiredPrivilegeForHTTPMethod
@@ -422,6 +701,10 @@ func main() {
 	if len(methods) == 0 {
 		problem("AuthenticationMethod iota block not found")
 	}
+
+	// ---- the route table of NewHandler and the authentication wrapping of addRawRoute
+	emitRoutes(hF, hc, w)
+
 	var ps []string
 	for _, p := range problems {
 		ps = append(ps, leanStr(p))
